@@ -1,8 +1,86 @@
 import BoltonsVerif.C17.Proofs
+/-
+C17 — property theorems (statements + short derivations from `Proofs.lean`, and
+non-vacuity examples).
+
+OneToOne.  A history is a list of commands on a register file of instances
+(`otoRun [] cmds`): constructors from pairs / from another instance (either side,
+plus keyword items) / `unique` / `copy`, and every mutator (`__setitem__`,
+`__delitem__`, `update` with any materialised argument, `|=`, `setdefault`, `pop`,
+`popitem`, `clear`) applied through the forward object or through `.inv`.
+-/
 namespace C17
 variable {α : Type} [DecidableEq α]
 
-/-- `x.inv.inv is x` -/
-theorem oto_inv_inv (s : OTO α) : s.flip.flip = s := rfl
+/-! ## OneToOne -/
+
+/-- MAIN: after any history, every instance satisfies the invariant (unique keys on both
+    sides, `fwd[k] = v ↔ inv[v] = k`) -/
+theorem oto_invariant (cmds : List (OtoCmd α)) (regs : List (OTO α))
+    (h : otoRun [] cmds = some regs) : ∀ s ∈ regs, s.WF :=
+  otoRun_wf cmds (fun _ hs => by simp at hs) h
+
+/-- … hence the two sides hold exactly the same pairs, transposed -/
+theorem oto_exact_inverses (cmds : List (OtoCmd α)) (regs : List (OTO α))
+    (h : otoRun [] cmds = some regs) (s : OTO α) (hs : s ∈ regs) (k v : α) :
+    (k, v) ∈ s.fwd ↔ (v, k) ∈ s.inv := by
+  have w := oto_invariant cmds regs h s hs
+  rw [mem_iff_lookup _ w.nf, mem_iff_lookup _ w.ni]
+  exact w.inverse k v
+
+/-- … `list(x.inv.items())` is a permutation of the swapped `list(x.items())` (same length) -/
+theorem oto_inv_perm (cmds : List (OtoCmd α)) (regs : List (OTO α))
+    (h : otoRun [] cmds = some regs) (s : OTO α) (hs : s ∈ regs) :
+    s.inv.Perm (s.fwd.map swap) ∧ s.inv.length = s.fwd.length := by
+  have w := oto_invariant cmds regs h s hs
+  have hp : s.inv.Perm (s.fwd.map swap) := by
+    rw [List.perm_ext_iff_of_nodup (nodup_of_nodup_map Prod.fst _ w.ni)
+      (nodup_of_nodup_map Prod.fst _ (nodup_values_of_wf w))]
+    intro p
+    obtain ⟨a, b⟩ := p
+    rw [mem_map_swap]
+    exact (oto_exact_inverses cmds regs h s hs b a).symm
+  exact ⟨hp, by simpa using hp.length_eq⟩
+
+/-- … and no value sits under two keys (nor a key under two values) -/
+theorem oto_no_value_under_two_keys (cmds : List (OtoCmd α)) (regs : List (OTO α))
+    (h : otoRun [] cmds = some regs) (s : OTO α) (hs : s ∈ regs) (k₁ k₂ v : α)
+    (h₁ : (k₁, v) ∈ s.fwd) (h₂ : (k₂, v) ∈ s.fwd) : k₁ = k₂ := by
+  have w := oto_invariant cmds regs h s hs
+  have e₁ := (w.inverse k₁ v).1 ((mem_iff_lookup _ w.nf _ _).1 h₁)
+  have e₂ := (w.inverse k₂ v).1 ((mem_iff_lookup _ w.nf _ _).1 h₂)
+  rw [e₁] at e₂
+  injection e₂
+
+/-- `x.inv.inv is x`, and a call made through `.inv.inv` is the call made through `x` -/
+theorem oto_inv_inv (s : OTO α) (op : OtoOp α) :
+    s.flip.flip = s ∧ ((s.flip.stepSide true op).1.flip, (s.flip.stepSide true op).2) = s.stepSide false op :=
+  ⟨rfl, rfl⟩
+
+/-- what `x[k] = v` does to the pairs: the pair with key `k` and the pair with value `v`
+    give way, every other pair stays (so nothing but the two sides' common pairs changes) -/
+theorem oto_setitem_spec (s : OTO α) (w : s.WF) (k v a b : α) :
+    (a, b) ∈ (s.setitem k v).fwd ↔ (a = k ∧ b = v) ∨ ((a, b) ∈ s.fwd ∧ a ≠ k ∧ b ≠ v) := by
+  rw [mem_iff_lookup _ (w.setitem k v).nf, mem_iff_lookup _ w.nf, OTO.setitem_fwd w]
+  grind
+
+/-- a mutator leaves every other instance exactly as it was; constructors / copy only append -/
+theorem oto_isolation (regs regs' : List (OTO α)) (c : OtoCmd α) (ret : Ret α)
+    (hc : otoCmd regs c = some (regs', ret)) (j : Nat) (hj : j < regs.length)
+    (ht : ∀ r side op, c = .op r side op → j ≠ r) (ht2 : ∀ r side src, c = .updateFrom r side src → j ≠ r) :
+    regs'[j]? = regs[j]? :=
+  otoCmd_isolated hc j hj ht ht2
+
+/-- `copy()` / `OneToOne(x)` of an instance reached by a history holds the same items, in the same order -/
+theorem oto_copy_same_items (s : OTO α) (w : s.WF) :
+    (OTO.ofPairs (s.items false)).fwd = s.fwd ∧ (OTO.ofPairs (s.items false)).inv = s.fwd.map swap := by
+  simp [OTO.items, OTO.ofPairs_of_wf w]
+
+/-! non-vacuity: a history with overwrite + eviction through both sides, update from the own inverse, copy -/
+example : otoRun ([] : List (OTO Nat))
+    [.new (.pairs [(1, 3), (2, 3), (4, 5)]), .op 0 true (.setitem 5 2), .copy 0 true,
+     .updateFrom 1 false (.reg 0 false [(7, 7)]), .op 0 false .popitem]
+    = some [⟨[], []⟩, ⟨[(2, 5), (7, 7)], [(5, 2), (7, 7)]⟩] := by decide
+example : (OTO.setitem (⟨[(1, 2), (3, 4)], [(2, 1), (4, 3)]⟩ : OTO Nat) 1 4) = ⟨[(1, 4)], [(4, 1)]⟩ := by decide
 
 end C17
